@@ -356,9 +356,18 @@ static void dropAllEdges()
     EDGEFOR.clear();
 }
 
-static void cmd_cleanup()
+static void cmd_cleanup(bool keep_edges = false)
 {
     if (!LIB_UP) return;
+    if (keep_edges) {
+        // the user's edges outlive the library: cleanup must detach them
+        dropIters();
+        MEDDLY::cleanup();
+        for (auto &p : FORS) { p.second.alive = false; p.second.F = nullptr; }
+        for (auto &p : DOMS) { p.second.alive = false; p.second.D = nullptr; }
+        LIB_UP = false;
+        return;
+    }
     dropAllEdges();
     MEDDLY::cleanup();
     DOMS.clear();
@@ -1067,6 +1076,46 @@ static void cmd_term(const std::vector<std::string> &tk)
     } else throw Bad("term kind");
 }
 
+// edgeval F dbl <hex64> <hex32> | edgeval F int <v> | edgeval F inf
+// forest::getEdgeForValue / getValueForEdge of an edge-valued forest (C19)
+static void cmd_edgeval(const std::vector<std::string> &tk)
+{
+    ForestInfo &fi = forestOf(tk[1]);
+    char buf[256];
+    edge_value v;
+    node_handle p = 0;
+    rangeval T;
+    if (tk[2] == "dbl") {
+        union { double d; unsigned long u; } pd;
+        pd.u = strtoul(tk[3].c_str(), 0, 16);
+        union { float f; unsigned u; } pf;
+        pf.f = float(pd.d);
+        if (pf.u != unsigned(strtoul(tk[4].c_str(), 0, 16))) throw Bad("edgeval: the script's float rounding differs from the C cast");
+        T = rangeval(pd.d);
+    } else if (tk[2] == "int") {
+        T = rangeval(atol(tk[3].c_str()));
+    } else if (tk[2] == "inf") {
+        T = rangeval(range_special::PLUS_INFINITY, range_type::INTEGER);
+    } else throw Bad("edgeval kind");
+    fi.F->getEdgeForValue(T, v, p);
+    const char* pk = (p == OMEGA_NORMAL) ? "w" : "?";
+    if (fi.el == edge_labeling::EVPLUS && p == OMEGA_INFINITY) pk = "inf";
+    if (fi.el == edge_labeling::EVTIMES && p == OMEGA_ZERO) pk = "z";
+    std::string stored;
+    if (v.isFloat()) { union { float f; unsigned u; } q; q.f = float(v); snprintf(buf, 256, "%08x", q.u); stored = buf; }
+    else if (v.isDouble()) { union { float f; unsigned u; } q; q.f = float(double(v)); snprintf(buf, 256, "%08x", q.u); stored = buf; }
+    else if (v.isLong()) { snprintf(buf, 256, "%ld", long(v)); stored = buf; }
+    else if (v.isInt()) { snprintf(buf, 256, "%d", int(v)); stored = buf; }
+    else stored = "-";
+    rangeval back;
+    fi.F->getValueForEdge(v, p, back);
+    std::string bs;
+    if (back.isPlusInfinity()) bs = "inf";
+    else if (fi.rt == range_type::REAL) { union { float f; unsigned u; } q; q.f = float(double(back)); snprintf(buf, 256, "%08x", q.u); bs = buf; }
+    else { snprintf(buf, 256, "%ld", long(back)); bs = buf; }
+    emit(std::string("edgeval p=") + pk + " v=" + stored + " back=" + bs);
+}
+
 // ---------------------------------------------------------------------
 // C18: bare memory managers
 // ---------------------------------------------------------------------
@@ -1192,7 +1241,7 @@ static void run(const std::vector<std::string> &tk)
 {
     const std::string &c = tk[0];
     if (c == "init") cmd_init(tk);
-    else if (c == "cleanup") cmd_cleanup();
+    else if (c == "cleanup") cmd_cleanup(tk.size() > 1 && tk[1] == "keep");
     else if (c == "domain") cmd_domain(tk);
     else if (c == "forest") cmd_forest(tk);
     else if (c == "minterm") cmd_minterm(tk);
@@ -1276,6 +1325,7 @@ static void run(const std::vector<std::string> &tk)
         emit(s);
     }
     else if (c == "term") cmd_term(tk);
+    else if (c == "edgeval") cmd_edgeval(tk);
     else if (c == "mm") cmd_mm(tk);
     else throw Bad("unknown command " + c);
 }
